@@ -17,6 +17,53 @@ def effects(c):
     return fp.extra.get("effects", []) if fp is not None else None
 
 
+def build_importer():
+    """DictImporter.__import (C10): effect-log contract - the argument is copied, 'children' is popped from the COPY, one
+    nodecls(parent=parent, **remaining attributes), then every element of the popped list is imported under the new node, in
+    order (a for-each over that very list whose body is exactly one recursive import with parent=the new node); the new node
+    is returned; the argument itself is never written."""
+    reg = Registry()
+    reg.bases["DictImporter"] = None
+    specs = []
+    NODECLS = V("opaque", ("self.nodecls",))
+
+    def post(c, S1, r):
+        evs = effects(c)
+        if evs is None:
+            return []
+        P10 = {"C10"}
+        kinds = [e[0] for e in evs]
+        ok = kinds == ["dict-copy", "pop", "construct", "for-each"]
+        cl = [Clause("sequence: copy the argument, pop 'children' from the copy, construct the node, import every child", BoolVal(ok), P10)]
+        if not ok:
+            return cl
+        cp, pop, con, fe = evs
+        data = c.args["data"]
+        cl.append(Clause("copies-the-argument (the argument itself is never written)", BoolVal(cp[1] is data), P10))
+        cl.append(Clause("pops-'children'-with-an-empty-default-from-the-copy",
+                         BoolVal(pop[1] is cp[2] and pop[2].k == "str" and str(pop[2].t) == '"children"' and pop[3].k == "opaque" and pop[3].t == ("empty-list",)), P10))
+        pos, stars, kws, node = con[1], con[2], dict(con[3]), con[4]
+        cl.append(Clause("constructs-nodecls(parent=parent, **remaining-attributes)",
+                         BoolVal(not pos and len(stars) == 1 and stars[0] is cp[2] and set(kws) == {"parent"} and kws["parent"] is c.args["parent"]), P10))
+        body = fe[3]
+        cl.append(Clause("imports-every-popped-child-in-order-under-the-new-node",
+                         BoolVal(fe[1] is pop[4] and len(body) == 1 and body[0][0] == "call:_DictImporter__import"
+                                 and len(body[0][1]) == 1 and body[0][1][0] is fe[2]), P10))
+        kwp = body[0][3] if len(body) == 1 and len(body[0]) > 3 else {}
+        cl.append(Clause("children-get-parent=the-new-node", BoolVal(isinstance(kwp, dict) and kwp.get("parent") is node), P10))
+        cl.append(Clause("returns-the-new-node", BoolVal(r is node), P10))
+        return cl
+    sp = QSpec(reg, "anytree/importer/dictimporter.py", "DictImporter", "__import", "method",
+               [("self", "obj:DictImporter"), ("data", "any"), ("parent", "any")], lambda c: [],
+               [Outcome("return", "return", post, res="any", mods=())], props={"C10"}, defaults={"parent": V("ref", NONE)})
+    sp.world = ATTRWORLD
+    sp.fields = lambda c: {"nodecls": NODECLS}
+    sp.plain_object = True
+    specs.append(sp)
+    reg.methods[("DictImporter", "_DictImporter__import")] = sp
+    return reg, specs
+
+
 def build():
     reg = Registry()
     reg.bases["JsonExporter"] = None
